@@ -904,7 +904,7 @@ package apd
 //@   ensures ret == d
 //@ func (*ErrDecimal).Pow
 //@   props C03
-//@   requires writable(e) && writable(d) && e.Ctx != nil && closed(e.Flags) && inv(x) && inv(y)
+//@   requires writable(e) && writable(d) && e.Ctx != nil && closed(e.Flags) && inv(x) && inv(y) && e.Ctx.Precision <= 1000000000
 //@   assigns e.Flags, e.err, d
 //@   ensures [invkeep] (old(inv(d)) ==> inv(d)) && closed(e.Flags) && e.Ctx == old(e.Ctx)
 //@   delegates (*Context).Pow(e.Ctx, d, x, y)
@@ -939,14 +939,14 @@ package apd
 //@   ensures ret == d
 //@ func (*ErrDecimal).Ln
 //@   props C03
-//@   requires writable(e) && writable(d) && e.Ctx != nil && closed(e.Flags) && inv(x)
+//@   requires writable(e) && writable(d) && e.Ctx != nil && closed(e.Flags) && inv(x) && e.Ctx.Precision <= 1500000000
 //@   assigns e.Flags, e.err, d
 //@   ensures [invkeep] (old(inv(d)) ==> inv(d)) && closed(e.Flags) && e.Ctx == old(e.Ctx)
 //@   delegates (*Context).Ln(e.Ctx, d, x)
 //@   ensures ret == d
 //@ func (*ErrDecimal).Log10
 //@   props C03
-//@   requires writable(e) && writable(d) && e.Ctx != nil && closed(e.Flags) && inv(x)
+//@   requires writable(e) && writable(d) && e.Ctx != nil && closed(e.Flags) && inv(x) && e.Ctx.Precision <= 1000000000
 //@   assigns e.Flags, e.err, d
 //@   ensures [invkeep] (old(inv(d)) ==> inv(d)) && closed(e.Flags) && e.Ctx == old(e.Ctx)
 //@   delegates (*Context).Log10(e.Ctx, d, x)
@@ -1168,7 +1168,7 @@ package apd
 //@ func (*Context).Ln
 //@   props C03 C04 C05 C06 C08 C18
 //@   exported
-//@   requires writable(d) && inv(x)
+//@   requires writable(d) && inv(x) && c.Precision <= 1500000000
 //@   assigns d
 //@   ensures [invkeep] old(inv(d)) ==> inv(d)
 //@   loop 1 invariant closed(ed.Flags) && ed.Ctx == nc && nc != nil && writable(nc) && nc != c && inv(tmp1) && inv(tmp2) && inv(tmp3) && inv(tmp4) && inv(z) && inv(resAdjust) && inv(eps) && old(inv(d)) == inv(d)
@@ -1186,7 +1186,7 @@ package apd
 //@ func (*Context).Log10
 //@   props C03 C04 C05 C06 C07 C08 C18
 //@   exported
-//@   requires writable(d) && inv(x)
+//@   requires writable(d) && inv(x) && c.Precision <= 1000000000
 //@   assigns d
 //@   ensures [invkeep] old(inv(d)) ==> inv(d)
 //@   ensures [closed] closed(ret0)
@@ -1280,7 +1280,7 @@ package apd
 //@ func (*Context).Pow
 //@   props C03 C04 C05 C06 C08 C18
 //@   exported
-//@   requires writable(d) && inv(x) && inv(y)
+//@   requires writable(d) && inv(x) && inv(y) && c.Precision <= 1000000000
 //@   assigns d
 //@   ensures [invkeep] old(inv(d)) ==> inv(d)
 //@   ensures [closed] closed(ret0)
